@@ -835,9 +835,9 @@ func init() {
 	})
 	profiles["oic"] = derive("oic", func(p *Profile) {
 		p.NReq = [2]int{3, 6}
-		p.PUnsafe, p.PReqCC, p.POnlyIfCached, p.PNoCache, p.PMustReval = 0.02, 0.8, 0.6, 0.25, 0.35
+		p.PUnsafe, p.PReqCC, p.POnlyIfCached, p.PNoCache, p.PMustReval = 0.12, 0.8, 0.6, 0.25, 0.35
 		p.PSWR, p.PSIE, p.URLs, p.PVary = 0.3, 0.2, 1, 0.2
-		p.PLocation, p.PConnHdr, p.PRange = 0.0, 0.0, 0.0
+		p.PLocation, p.PConnHdr, p.PRange = 0.0, 0.0, 0.08 // requests the cache never answers from its store carry only-if-cached too
 		p.PCCSpell = 0.4
 		p.PRepeat = 0.25
 	})
